@@ -90,6 +90,11 @@ func genPropCase(t *rapid.T) PropCase {
 		c.Chain.MaxBlockSysFee = rapid.Int64Range(20_0000_0000, 60_0000_0000).Draw(t, "max_sysfee") // >= the bootstrap's deploy fee
 	}
 	c.History = genHistory(t, 3)
+	if c.Chain.Profile == "V4C6" && rapid.IntRange(0, 2).Draw(t, "vhist") == 0 {
+		// the number of validators changes at height 6 (the first committee refresh): the proposal for block 6 is still
+		// signed by the four old validators, the one for block 7 by the new ones
+		c.Chain.ValidatorsHistory = map[uint32]uint32{0: 4, 6: uint32(rapid.SampledFrom([]int{1, 1, 6}).Draw(t, "vhist_n"))}
+	}
 	n := rapid.IntRange(5, 80).Draw(t, "ntx")
 	// many: a pool of 250-330 small transactions, the size limit aimed at a cut around the 252/253 boundary.
 	many := rapid.IntRange(0, 9).Draw(t, "many") == 0
@@ -101,6 +106,11 @@ func genPropCase(t *rapid.T) PropCase {
 		c.Aim = &PAim{Cut: rapid.SampledFrom([]int{250, 251, 252, 252, 253, 253, 254, 255, 260}).Draw(t, "aim_cut_many"), Delta: rapid.IntRange(-2, 2).Draw(t, "aim_delta")}
 	} else if focus == "size" && rapid.Bool().Draw(t, "aimed") {
 		c.Aim = &PAim{Cut: rapid.IntRange(1, n).Draw(t, "aim_cut"), Delta: rapid.IntRange(-2, 2).Draw(t, "aim_delta")}
+	}
+	if len(c.Chain.ValidatorsHistory) > 0 && c.Aim == nil && rapid.IntRange(0, 3).Draw(t, "vhist_aimed") != 0 {
+		// the size rule has to bind for the witness estimate to matter
+		c.Chain.MaxTxPerBlock, c.Chain.MaxBlockSysFee = 0, 0
+		c.Aim = &PAim{Cut: rapid.IntRange(1, n).Draw(t, "aim_cut_vh"), Delta: rapid.IntRange(-2, 2).Draw(t, "aim_delta_vh")}
 	}
 	switch rapid.IntRange(0, 5).Draw(t, "mid") {
 	case 0, 1:
@@ -612,6 +622,9 @@ func checkProp1(c PropCase, o *vt.Obs, nonCanon, srihKnown bool, ms *measure) er
 
 	// --- classification ---------------------------------------------------------------------------------------------------
 	o.Labelf("profile-%s", c.Chain.Profile)
+	if len(c.Chain.ValidatorsHistory) > 0 {
+		o.Labelf("validators-history/proposal-for-block-%d", bc.BlockHeight()+1)
+	}
 	if len(sel) < len(verified) {
 		next := verified[len(sel)]
 		why := false
